@@ -125,6 +125,8 @@ def grammar():
         st.builds(lambda t, a: f"list(map(str.format, [{t}], [{a}]))", tmpl, sent),
         st.builds(lambda t, a: f"{t}.format(a={a})", tmpl, sent),
         st.builds(lambda a, n: f"{a}.{n}", sent, st.sampled_from(PRIV)),
+        st.builds(lambda a, n, form: form.format(x=a, n=n), sent, st.sampled_from(PRIV),
+                  st.sampled_from(['{x}.({n})', '{x}. ({n})', '{x}.(({n}))', '{x} . {n}', '({x}).{n}', '{x}.[{n}]', "{x}.'{n}'"])),
     )
 
     # well-formed expressions over public members that evaluate successfully and carry a private name only as data
@@ -145,7 +147,10 @@ def grammar():
     )
 
     def member(e):
-        return st.builds(lambda x, n: f"{x}.{n}", e, st.sampled_from(PRIV + PUB))
+        # also odd spellings of the member name: parenthesised, spaced, bracketed
+        return st.builds(lambda x, n, form: form.format(x=x, n=n), e, st.sampled_from(PRIV + PUB),
+                         st.sampled_from(['{x}.{n}', '{x}.{n}', '{x}.{n}', '{x}.({n})', '{x}. ({n})', '{x}.(({n}))', '{x} . {n}',
+                                          '({x}).{n}', '{x}.[{n}]', "{x}.'{n}'", '{x}..{n}']))
 
     def call(e):
         return st.builds(lambda f, args: f"{f}({', '.join(args)})", e, st.lists(e, max_size=3))
